@@ -60,11 +60,24 @@ TravOK(e) ==
       /\ \A k \in 1..Len(e.reps) : e.reps[k] \in UNION comps
 TravConf(e) == e.out = TraversalOf(e.sym, ToSetI(e.idcs), e.seeds)
 
+\* beyond the listed properties (conformance level): the constructors of derived.rs against the specification's operators
+CoverBy(S, sm) == [n |-> 2 * S.n, dim |-> S.dim,
+                   op |-> [i \in 1..(S.dim + 1) |-> [c \in 1..(2 * S.n) |-> LET d == ((c - 1) % S.n) + 1  sh == (c - 1) \div S.n IN
+                              S.n * ((sh + sm[i][d]) % 2) + S.op[i][d]]],
+                   v |-> S.v]      \* placeholder, degrees are compared through MM below
+DerivedConf(e) ==
+   LET S == e.sym IN
+   /\ e.dual = Dual(S) /\ e.dualdual = S
+   /\ \A k \in 1..Len(e.subs) : e.subs[k].out = Sub(S, [j \in 1..Len(e.subs[k].idcs) |-> e.subs[k].idcs[j]], e.subs[k].seed)
+   /\ LET C == e.cover  W == CoverBy(S, e.sheetmap) IN
+        /\ C.n = W.n /\ C.op = W.op
+        /\ \A i \in 0..(S.dim - 1), c \in 1..C.n : MM(C, i, i + 1, c) = MM(S, i, i + 1, ((c - 1) % S.n) + 1)
 Next == /\ l <= Len(Rec)
         /\ (LET e == Rec[l] IN
              /\ "panic" \notin DOMAIN e
              /\ IF e.ev = "sym" THEN SymOK(e)
                 ELSE IF e.ev = "trav" THEN TravOK(e) /\ (IF TravConf(e) THEN TRUE ELSE PrintT(<<"NOTE", "traversal order differs from the reference machine", l>>))
+                ELSE IF e.ev = "derived" THEN (IF DerivedConf(e) THEN TRUE ELSE PrintT(<<"NOTE", "a constructor of derived.rs differs from the specification's operator", l>>))
                 ELSE FALSE) = TRUE
         /\ l' = l + 1
 Spec == Init /\ [][Next]_l
